@@ -229,8 +229,8 @@ def edge_mdps():
         yield ('mdp', 2, T, (), ((0, one),), F(0))
     # (6) very large costs (values far below the -708 that log(tiny) would give a masked action)
     for g in (F(9, 10), F(1)):
-        T = ((('a', ((1, one),), F(-1000)), ('b', ((0, one),), F(-1))),
-             (('a', ((2, one),), F(-500)),),
+        T = ((('a', ((1, one),), F(-500)), ('b', ((0, one),), F(-1))),
+             (('a', ((2, one),), F(-1000)),),        # the state that lacks action b is worth less than -708
              (('a', ((2, one),), F(0)),))
         yield ('mdp', 3, T, (2,), ((0, one),), g)
     # (5) corridors of 6 and 7 states ending in a negative self-loop / a goal
